@@ -121,8 +121,10 @@ impl<T> TimeOutList<T> {
     // this can be called in any thread
     // return true if we need to recall next expire
     pub fn add_timer(&self, dur: Duration, data: T) -> (TimeoutHandle<T>, bool) {
-        let interval = dur.as_nanos() as u64;
-        let time = now() + interval;
+        // saturate: a huge duration (e.g. `Duration::MAX` used as "no timeout")
+        // must neither wrap to a short one nor overflow the expire time
+        let interval = u64::try_from(dur.as_nanos()).unwrap_or(u64::MAX);
+        let time = now().saturating_add(interval);
         //println!("add timer = {:?}", time);
 
         let timeout = TimeoutData { time, data };
